@@ -57,17 +57,19 @@ struct Rig {
     shadows: Vec<Shadow>,
     step: usize,
     members: Vec<WId>,
+    /// version of the last READY write delivered for each member (predicate histories)
+    ready_ver: Vec<u64>,
     out: HistOut,
     ctx: String,
 }
 
 impl Rig {
     fn new(cfg: FdCfg, n_members: usize, ctx: String) -> Rig {
-        Rig::new_with(cfg, n_members, ctx, false)
+        Rig::new_with(cfg, n_members, ctx, false, false)
     }
 
-    fn new_with(cfg: FdCfg, n_members: usize, ctx: String, namesakes: bool) -> Rig {
-        let o = NodeOpts { phi: cfg.phi, window: cfg.window, max_interval: cfg.max_interval, initial_interval: cfg.initial_interval, dead_grace: cfg.dead_grace.unwrap_or(Duration::from_secs(1_000_000_000)), ..Default::default() };
+    fn new_with(cfg: FdCfg, n_members: usize, ctx: String, namesakes: bool, predicate: bool) -> Rig {
+        let o = NodeOpts { phi: cfg.phi, window: cfg.window, max_interval: cfg.max_interval, initial_interval: cfg.initial_interval, dead_grace: cfg.dead_grace.unwrap_or(Duration::from_secs(1_000_000_000)), predicate, ..Default::default() };
         Rig {
             main: mk_node(simple_id("r", 9000), &o),
             twin: mk_node(simple_id("r", 9000), &o),
@@ -75,6 +77,7 @@ impl Rig {
             shadows: vec![Shadow::default(); n_members],
             step: 0,
             members: (0..n_members).map(|n| member(n, namesakes)).collect(),
+            ready_ver: vec![0; n_members],
             out: HistOut { findings: vec![], c: Counters::default(), hash: 0, sample: json!(null) },
             ctx,
         }
@@ -124,6 +127,27 @@ impl Rig {
                 Err(p) => self.out.findings.push(Finding::new(&["C10", "C11", "C09"], "fd.panic", format!("{}: processing a digest panicked: {p}", self.ctx))),
             }
         }
+    }
+
+    /// A key-value of the member arrives (an ACK delta, no digest): READY = "true" / "false". With the extra liveness
+    /// predicate configured it decides whether the watch channel lists the member; the failure detector's verdicts
+    /// (live / dead sets, deadlines) do not depend on it.
+    fn set_ready(&mut self, i: usize, ready: bool) {
+        self.step += 1;
+        let id = cid(&self.members[i]);
+        if self.main.cc.node_state(&id).is_none() || self.twin.cc.node_state(&id).is_none() {
+            return;
+        }
+        let from = self.ready_ver[i];
+        self.ready_ver[i] += 1;
+        let ops = vec![crate::codec::WOp::Node { id: self.members[i].clone(), last_gc: 0, from }, crate::codec::WOp::Kv { key: "READY".into(), value: if ready { "true" } else { "false" }.into(), version: from + 1, status: 0 }];
+        let bytes = ack_bytes(&ops);
+        for node in [&mut self.main, &mut self.twin] {
+            if let Err(p) = catch(|| feed(&mut node.cc, &bytes)) {
+                self.out.findings.push(Finding::new(&["C09"], "fd.panic", format!("{}: processing a READY delta panicked: {p}", self.ctx)));
+            }
+        }
+        self.out.c.inc("ready_key_writes_delivered");
     }
 
     /// The external catch-up entry point is no heartbeat: it must not count as evidence either (same call on both nodes).
@@ -322,7 +346,10 @@ pub async fn random_history(seed: u64, i: u64, max_events: usize, allow_catchup:
     // whole u64 range (jumps of 2^62 / 2^63), so that "lower" can be lower by more than half the range
     let namesakes = nm > 1 && rng.random_range(0..6) == 0;
     let wide = rng.random_range(0..5) == 0;
-    let mut rig = Rig::new_with(cfg.clone(), nm, format!("history {i} cfg {cfg:?}{}{}", if namesakes { " namesakes" } else { "" }, if wide { " wide-heartbeats" } else { "" }), namesakes);
+    // one history in five: the node is configured with the extra liveness predicate READY == "true"; the members' READY
+    // key is written now and then (or never)
+    let predicate = rng.random_range(0..5) == 0;
+    let mut rig = Rig::new_with(cfg.clone(), nm, format!("history {i} cfg {cfg:?}{}{}{}", if namesakes { " namesakes" } else { "" }, if wide { " wide-heartbeats" } else { "" }, if predicate { " predicate" } else { "" }), namesakes, predicate);
     let events = rng.random_range(1..=max_events);
     // a quarter of the histories interleave calls of the external catch-up entry point (no heartbeat in them)
     let with_catchup = allow_catchup && rng.random_range(0..4) == 0;
@@ -344,7 +371,11 @@ pub async fn random_history(seed: u64, i: u64, max_events: usize, allow_catchup:
         };
         tokio::time::advance(dt).await;
         let r = rng.random_range(0..100);
-        if with_catchup && r >= 97 {
+        if predicate && !with_catchup && r >= 95 {
+            let m = rng.random_range(0..nm);
+            let ready = rng.random_bool(0.5);
+            rig.set_ready(m, ready);
+        } else if with_catchup && r >= 97 {
             let m = rng.random_range(0..nm);
             catchup_mv[m] += rng.random_range(1..3);
             rig.catch_up(m, catchup_mv[m]);
